@@ -25,7 +25,20 @@ def record_events(items, work, name="ev", script="events.py", py=None, env=None,
     return merged
 
 
+CHUNK = int(os.environ.get("VERIF_CHUNK", "60000"))          # events per TLC run: a trace file of hundreds of MB makes TLC's JSON reader the bottleneck
+
+
 def judge(c, prop, events, work, name, cfg=None, module="TraceEvents", keyfn=None, extra_states=1):
+    # whole-trace clauses (C07's metric-order acyclicity) need the trace in one piece; everything else is judged event by event
+    if len(events) > CHUNK and not (module == "TraceEvents" and prop == "C07"):
+        nfail = 0
+        for k in range(0, len(events), CHUNK):
+            nfail += judge_one(c, prop, events[k:k + CHUNK], work, "%s-%d" % (name, k // CHUNK), cfg, module, keyfn, extra_states, offset=k)
+        return nfail
+    return judge_one(c, prop, events, work, name, cfg, module, keyfn, extra_states)
+
+
+def judge_one(c, prop, events, work, name, cfg=None, module="TraceEvents", keyfn=None, extra_states=1, offset=0):
     p = os.path.join(work, name + ".trace.json")
     with open(p, "w") as fh:
         json.dump(events, fh, separators=(",", ":"))
@@ -37,7 +50,8 @@ def judge(c, prop, events, work, name, cfg=None, module="TraceEvents", keyfn=Non
     nfail = 0
     for l in r.lines:
         if l.startswith("NOTE "):
-            c.notes.append(l)
+            m = re.match(r"NOTE (\d+) (.*)", l)
+            c.notes.append("NOTE %d %s" % (int(m.group(1)) + offset, m.group(2)) if m else l)
         if l.startswith("FAIL "):
             m = re.match(r"FAIL (\d+) (.*)", l)
             idx, what = int(m.group(1)), m.group(2)
